@@ -153,20 +153,37 @@ def nuts_classes():
 # ----------------------------------------------------------------------------------------------------------------
 # spec -> code: scripted replay of one behaviour
 # ----------------------------------------------------------------------------------------------------------------
-def calibrate_direction(impl, orbit):
-    """Which uniform value makes the code choose direction +1?  (The mapping uniform -> direction is an implementation
-    choice; the behaviours of the specification fix the direction, not the uniform.)"""
+def direction_for(impl, orbit, u):
+    """Direction of the first doubling when the first uniform of the transition is u."""
     cls = nuts_classes()[impl]
     tgt = TableTarget(orbit)
     with Tap(cls) as tap:
         default = {"normal": lambda sh: np.full(sh, tgt.r[0]), "exponential": lambda sh: 1.0, "uniform": lambda sh: 0.9}
-        with scripted({"uniform": [0.25]}, default=default):
+        with scripted({"uniform": [u]}, default=default):
             _run_once(impl, tgt, 0, probe=False)
         tops = [b for b in tap.bt if b["top"]]
     if not tops:
         raise MachineryError("calibration: no top-level _BuildTree call observed for %s" % impl)
-    v = tops[0]["v"]
-    return {v: 0.25, -v: 0.75}
+    return tops[0]["v"]
+
+
+HALF_LO, HALF_HI = 0.5 * (1 - 1e-6), 0.5 * (1 + 1e-6)
+
+
+def calibrate_direction(impl, orbit):
+    """Which uniform value makes the code choose direction +1?  (The mapping uniform -> direction is an implementation
+    choice; the behaviours of the specification fix the direction, not the uniform.)  Both directions have probability
+    1/2 in the specification (weights w, kernel rows): a direction decided by one uniform must switch at 1/2, so the two
+    scripted values sit 1e-6 (relative) below / above 1/2.
+    Returns (map direction -> uniform, fair): fair = False when the direction switches somewhere else than at 1/2."""
+    lo, hi = direction_for(impl, orbit, HALF_LO), direction_for(impl, orbit, HALF_HI)
+    if {lo, hi} == {-1, 1}:
+        return {lo: HALF_LO, hi: HALF_HI}, True
+    a, b = direction_for(impl, orbit, 0.25), direction_for(impl, orbit, 0.75)
+    if {a, b} != {-1, 1}:
+        raise MachineryError("calibration: cannot steer the direction of %s NUTS with one uniform draw (0.25 -> %r, 0.75 -> %r)"
+                             % (impl, a, b))
+    return {a: 0.25, b: 0.75}, False
 
 
 def _run_once(impl, tgt, md, probe, cb=None):
@@ -280,24 +297,21 @@ def replay_experimental(case, orbit, dirmap):
     out = Outcome()
     tgt = TableTarget(orbit)
     script = build_script(case, dirmap)
+    nscript = sum(len(v) for v in script.values())
+    # draws the behaviour does not contain are served by defaults (momentum r_0, e = 1, a tiny uniform = "take the
+    # branch"): HOW MANY draws a transition makes is not fixed by the property; what a departing implementation does with
+    # them shows in the leaves / subtrees / selected point compared below
+    default = {"normal": lambda sh: np.full(sh, tgt.r[0]), "exponential": lambda sh: 1.0, "uniform": lambda sh: 1e-9}
     with Tap(cls) as tap:
         try:
-            with scripted(script) as st:
+            with scripted(script, default=default) as st:
                 tgt.watch = True
                 S, accs = _run_once("experimental", tgt, case["md"], probe=False)
                 tgt.watch = False
                 left = st.remaining()
+                nreq = len(st.log)
         except ScriptError as ex:
-            # the code asked for a draw the behaviour does not contain: report where the trees part, if they do
-            tgt.watch = False
-            lf = list(tap.lf)
-            ts = [tgt.t_of(q["x1"]) for q in lf]
-            if tgt.off:
-                return out.fail("lattice", "the integrator evaluated the target at a position that is not on the orbit", None, tgt.off[:3])
-            if ts != case["leaves"][:len(ts)] or len(ts) > len(case["leaves"]):
-                return out.fail("leaves", "sequence of leaves visited differs (stopping rule / recursion)", case["leaves"], ts)
-            return out.fail("draws", "the code requested a draw the behaviour does not contain: %s" % str(ex)[:160],
-                            [d["k"] for d in case["draws"]], {"leaves_so_far": ts})
+            raise MachineryError("experimental NUTS asked for random draws the binding does not script: %s" % str(ex)[:200])
         except MachineryError:
             raise
         except Exception as ex:
@@ -308,13 +322,13 @@ def replay_experimental(case, orbit, dirmap):
         compare_tree(out, case, tgt, bt, lf, tap.orig_leapfrog, S)
     if out.mismatch:
         return out
-    if left:
-        return out.fail("draws", "scripted draws were not consumed", {}, left)
     for attr in ("current_point", "current_target_logd", "current_target_grad"):
         if not hasattr(S, attr):
             raise MachineryError("anchored state attribute %s is missing" % attr)
     pt, lp, gr = _f(S.current_point), _f(S.current_target_logd), _f(S.current_target_grad)
     out.obs = {"point": pt, "logd": lp, "grad": gr, "acc": accs}
+    if left or nreq != nscript:       # recorded only (reported as an observation if everything compared conforms)
+        out.obs["draws"] = {"scripted": nscript, "requested": nreq, "unused": left}
     tsel = tgt.t_of(pt)
     if not math.isfinite(lp) or (tsel is not None and not math.isfinite(tgt.lp[tsel])):
         return out.fail("nonfinite", "a point with non-finite log-density was selected",
@@ -352,13 +366,18 @@ def replay_legacy(case, orbit, dirmap):
     script = build_script(case, dirmap)
     marks = {}
     default = {"normal": lambda sh: np.full(sh, 0.5), "exponential": lambda sh: 1.0, "uniform": lambda sh: 0.75}
+    first = {"normal": lambda sh: np.full(sh, tgt.r[0]), "exponential": lambda sh: 1.0, "uniform": lambda sh: 1e-9}
     with Tap(cls) as tap:
-        st = Stream(script, default)
+        # defaults of the FIRST transition (draws the behaviour does not contain) as in replay_experimental; the probe
+        # transition that follows uses arbitrary interior values
+        st = Stream(script, dict(first))
 
         def cb(sample, k):
             if k == 1:
                 marks.update(nreq=len(st.log), left=st.remaining(), nbt=len(tap.bt), nlf=len(tap.lf), off=list(tgt.off))
                 tgt.watch = False
+                st.q = {}                      # whatever the first transition left unused is not handed to the probe
+                st.default = default
         try:
             with scripted(stream=st):
                 tgt.watch = True
@@ -377,13 +396,12 @@ def replay_legacy(case, orbit, dirmap):
         compare_tree(out, case, tgt, bt, lf, tap.orig_leapfrog, S)
     if out.mismatch:
         return out
-    if marks["left"] or marks["nreq"] != len(case["draws"]):
-        return out.fail("draws", "number of draws requested in the transition differs from the behaviour",
-                        len(case["draws"]), {"requested": marks["nreq"], "left": marks["left"]})
     smp = np.asarray(res.samples, dtype=float)
     pt = float(smp[0, 1])
     ll = getattr(res, "loglike_eval", None)
     out.obs = {"point": pt}
+    if marks["left"] or marks["nreq"] != len(case["draws"]):       # see replay_experimental: an observation, not a clause
+        out.obs["draws"] = {"scripted": len(case["draws"]), "requested": marks["nreq"], "unused": marks["left"]}
     tsel = tgt.t_of(pt)
     if (ll is not None and not math.isfinite(float(ll[1]))) or (tsel is not None and not math.isfinite(tgt.lp[tsel])):
         return out.fail("nonfinite", "a point with non-finite log-density was selected",
